@@ -23,3 +23,7 @@ reg("C05", "property-based testing (stateful): Hypothesis rule-based machines ov
     "Histories over nested with-blocks (left normally / by exception / with a reducer raising on completion), global probes deactivated in any order, refused activations and calls are applied to ptera and to a model; after every step each probe's stream must equal the model's (exactly-once while active, frozen afterwards), functions no active probe uses must be on their original code with zero counters, the installed handlers must be exactly those of the active probes, and at quiescence a fresh probe behaves like the first ever. A second machine does the same for plain overlays on tooled copies.",
     "Reads ptera internals at the observation points the property names (fn.__code__, __ptera_stack__ counters, HandlerCollection.current, global_probes, probe._ol.handlers).",
     "DESIGN.md section 5 C05")
+reg("C17", "property-based testing (stateful): Hypothesis rule-based machine over pipeline/lifecycle histories of one probe, stream model with exactly-once completion",
+    "Histories of {attach stage, activate, call, deactivate normally/by exception/explicitly, re-activation attempt, background probe on/off} are applied to one root probe and to a stream model; after every step every non-reducing sink must equal the mapped list of events since its attachment, reducing sinks must be empty until deactivation and hold exactly the reduction of their events afterwards, a refused re-activation must change nothing, and nothing may stay installed once inactive.",
+    "Trusts giving's operator semantics for map/filter/count/sum/min/max/last/take_last as re-stated in ref_stage; empty strict reducers are excluded by the model (giving raises by contract).",
+    "DESIGN.md section 5 C17")
